@@ -17,6 +17,8 @@ def symbols(prefix, n):
 
 
 def _small(e):
+    if e.is_number:
+        return bool(e > 0 and e <= sp.Rational(1, 1000))     # a literal zero tolerance such as the default 1e-10
     return bool(e.free_symbols) and all(str(x).startswith("tol") for x in e.free_symbols)
 
 
@@ -139,3 +141,20 @@ def trimmed(cs):
 def same_poly(cs, want):
     a, b = trimmed([sp.expand(x) for x in cs]), trimmed([sp.expand(x) for x in want])
     return len(a) == len(b) and all(sym.is_zero(x - y) for x, y in zip(a, b))
+
+
+def timed(fn, seconds=20, default=None):
+    """Run a pure computation under a wall-clock budget; returns `default` on timeout."""
+    import signal
+
+    def on_alarm(signum, frame):
+        raise _Timeout()
+    old = signal.signal(signal.SIGALRM, on_alarm)
+    signal.setitimer(signal.ITIMER_REAL, seconds)
+    try:
+        return fn()
+    except _Timeout:
+        return default
+    finally:
+        signal.setitimer(signal.ITIMER_REAL, 0)
+        signal.signal(signal.SIGALRM, old)
